@@ -73,7 +73,7 @@ GROUPS = {
         "functions": ["json_write::write_rtobject", "json_read::jtoken_to_runtime_object", "json_read::jarray_to_runtime_obj_list",
                       "ControlCommand::new_from_name", "NativeFunctionCall::new_from_name", "serde_json::Number::{from,from_f64,as_i64,as_f64,is_i64}"],
         "bounds": ("scalars: every i32, both bools (floats: probed, do not finish, not selected); loader tokens: Null, "
-                   "Bool, Number built from every i64 / u64 / finite f64, String of length 0, 1, 2 with symbolic ASCII bytes, "
+                   "Bool, Number built from every i64 / u64 / finite f64, String of length 0..4 with symbolic ASCII bytes, "
                    "token lists of length 0..2 with skip_last symbolic; objects ({...}) are outside (serde_json::Map = BTreeMap, E8')"),
         "stubs": ["alloc::fmt::format"],
         "roles": {
@@ -83,7 +83,8 @@ GROUPS = {
             "tok_null": "loader on JSON null", "tok_bool": "loader on JSON bool", "tok_i64": "loader on any i64 number",
             "tok_u64": "loader on any u64 number", "tok_f64": "loader on any finite f64 number",
             "tok_str0": "loader on the empty string token", "tok_str1": "loader on any 1-byte ASCII string token",
-            "tok_str2": "loader on any 2-byte ASCII string token", "hunt_tok_arr_empty": "bug-hunt: loader on [] as a container",
+            "tok_str2": "loader on any 2-byte ASCII string token", "tok_str3": "loader on any 3-byte ASCII string token",
+            "tok_str4": "loader on any 4-byte ASCII string token", "hunt_tok_arr_empty": "bug-hunt: loader on [] as a container",
             "hunt_tok_arr_null": "bug-hunt: loader on [null] as a container", "hunt_tok_arr_bool_null": "bug-hunt: loader on [bool, null] as a container", "arr_list_empty_skip": "token-list reader on [] with skip_last", "arr_list_empty_noskip": "token-list reader on []",
             "arr_list_one_number_skip": "token-list reader on [n] with skip_last, n any i64", "arr_list_one_number_noskip": "token-list reader on [n], n any i64",
             "arr_list_bool_null_skip": "token-list reader on [bool, null] with skip_last", "arr_list_bool_null_noskip": "token-list reader on [bool, null]",
@@ -151,7 +152,7 @@ GROUPS = {
         "functions": ["json_read_stream::jtoken_to_runtime_object (leaf arms)", "json_read::jtoken_to_runtime_object (leaf arms)",
                       "ControlCommand::new_from_name", "NativeFunctionCall::new_from_name", "Value::new::<&str>"],
         "bounds": ("differential: same leaf token through both loaders; every i32, every finite f32, both bools, every text token "
-                   "\"^x\" and \"^xy\" with x, y ASCII; every other 1- and 2-byte ASCII string token (same KIND of object: which control "
+                   "\"^x\" and \"^xy\" with x, y ASCII; every other 1-, 2- and 3-byte ASCII string token (same KIND of object: which control "
                    "command, which native function, glue, void, rejection); longer tokens and objects/arrays (tokenizer-driven in the streaming loader) are outside"),
         "stubs": ["alloc::fmt::format"],
         "roles": {"leaf_int": "integer token, all i32", "leaf_float": "float token, all finite f32", "leaf_bool": "bool token",
@@ -159,6 +160,7 @@ GROUPS = {
                   "leaf_caret_text_2": "text token \"^xy\", x, y any ASCII bytes, through both loaders",
                   "leaf_kind_1": "any 1-byte ASCII non-text string token: same kind of object from both loaders",
                   "leaf_kind_2": "any 2-byte ASCII non-text string token: same kind of object (which control command / native function / glue / rejection)",
+                  "leaf_kind_3": "any 3-byte ASCII non-text string token: same kind of object from both loaders",
                   "leaf_str1": "1-byte ASCII string token", "leaf_str2": "2-byte ASCII string token", "leaf_str3": "3-byte ASCII string token"},
     },
     "cli_escape": {
